@@ -128,6 +128,7 @@ func (x *SExec) doCleaner(i int, op SOp) *Fail {
 	// let a fold/removal that began at the last tick finish
 	time.Sleep(1500 * time.Millisecond)
 	x.Labels["cleaner:ran"]++
+	var invalid *Fail
 	size := x.Live.size()
 	for _, j := range nodes {
 		nd := st.Nodes[j]
@@ -183,8 +184,9 @@ func (x *SExec) doCleaner(i int, op SOp) *Fail {
 			case k+1 < len(b.chain) && retained(b.chain[k+1]):
 				why = "its merge target " + b.chain[k+1] + " is a retained user-created snapshot"
 			}
-			if why != "" {
-				return sfail("cleaner|invalid-candidate-removed", fmt.Sprintf("n%d: the cleaner removed %s although %s (chain %v, checkpoint %s)", j, d, why, b.chain, ctlCP), "C11")
+			if why != "" && invalid == nil {
+				// reported after the content checks below (which name the damage, if any)
+				invalid = sfail("cleaner|invalid-candidate-removed", fmt.Sprintf("n%d: the cleaner removed %s although %s (chain %v, checkpoint %s)", j, d, why, b.chain, ctlCP), "C11")
 			}
 			x.Labels["cleaner:removed-a-snapshot"]++
 		}
@@ -222,7 +224,7 @@ func (x *SExec) doCleaner(i int, op SOp) *Fail {
 			x.Labels["cleaner:snapshot-compared"]++
 		}
 	}
-	return nil
+	return invalid
 }
 
 func genCleanerProgram(t *rapid.T) SProgram {
@@ -274,6 +276,13 @@ func genCleanerProgram(t *rapid.T) SProgram {
 	}
 	p.Ops = append(p.Ops, c)
 	return p
+}
+
+// TestC06Cleaner — the same programs for C06: whatever the cleaner does, every
+// retained user-created snapshot keeps its image.
+func TestC06Cleaner(t *testing.T) {
+	runStackProperty(t, "C06", "TestC06Cleaner", genCleanerProgram,
+		func(p SProgram, x *SExec) bool { return x.Labels["cleaner:snapshot-compared"] > 0 })
 }
 
 // TestC11Cleaner — the background cleaner itself (sync.Task.InternalSnapshotCleaner)
